@@ -5,6 +5,7 @@ import (
 	"go/token"
 	"go/types"
 	"sort"
+	"strings"
 
 	"golang.org/x/tools/go/ssa"
 )
@@ -245,64 +246,127 @@ func runC16(w *World, r *Report) {
 		eo := w.Fn("compose", "extractOption")
 		fPaths := w.Field("compose", "Option", "paths")
 		n := 0
-		for _, li := range naturalLoops(eo) {
-			var idx *ssa.Phi
-			for _, in := range li.header.Instrs {
-				if p, ok := in.(*ssa.Phi); ok && p.Comment == "rangeindex" {
-					idx = p
-				}
+		// the elements of the loop over an option's paths: loads of opt.paths[i], whatever the loop is written like
+		var elems []*ssa.UnOp
+		instrs(eo, func(in ssa.Instruction) {
+			ld, ok := in.(*ssa.UnOp)
+			if !ok || ld.Op != token.MUL {
+				return
 			}
-			if idx == nil {
-				continue
-			}
-			var elems []ssa.Value
-			for _, ref := range *idx.Referrers() {
-				b, ok := ref.(*ssa.BinOp)
-				if !ok || b.Op != token.ADD {
-					continue
+			if ia, ok := ld.X.(*ssa.IndexAddr); ok && isLoadOfField(ia.X, fPaths) {
+				// … at the loop's running index (computed from a phi), not at a fixed position
+				if _, isConst := ia.Index.(*ssa.Const); isConst {
+					return
 				}
-				for _, r2 := range *b.Referrers() {
-					if ia, ok := r2.(*ssa.IndexAddr); ok && ia.Index == ssa.Value(b) && isLoadOfField(ia.X, fPaths) {
-						for _, r3 := range *ia.Referrers() {
-							if ld, ok := r3.(*ssa.UnOp); ok {
-								elems = append(elems, ld)
+				running := false
+				var walk func(v ssa.Value, d int)
+				seen := map[ssa.Value]bool{}
+				walk = func(v ssa.Value, d int) {
+					if v == nil || d > 4 || seen[v] {
+						return
+					}
+					seen[v] = true
+					if _, ok := v.(*ssa.Phi); ok {
+						running = true
+						return
+					}
+					if in, ok := v.(ssa.Instruction); ok {
+						for _, op := range in.Operands(nil) {
+							if *op != nil {
+								walk(*op, d+1)
 							}
 						}
 					}
 				}
+				walk(ia.Index, 0)
+				if running {
+					elems = append(elems, ld)
+				}
 			}
-			if len(elems) == 0 {
+		})
+		loops := naturalLoops(eo)
+		for _, fw := range fieldWrites(eo) {
+			if !sameField(fw.field, fPaths) {
 				continue
 			}
-			for _, fw := range fieldWrites(eo) {
-				if !sameField(fw.field, fPaths) || !li.body[fw.in.Block()] {
+			// only stores inside a loop that also holds an element load
+			var mine []*ssa.UnOp
+			for _, li := range loops {
+				if !li.body[fw.in.Block()] {
 					continue
 				}
-				n++
-				good := false
-				// an empty list
-				if sl, ok := fw.val.(*ssa.Slice); ok {
-					if al, ok := sl.X.(*ssa.Alloc); ok {
-						if at, ok := al.Type().(*types.Pointer).Elem().Underlying().(*types.Array); ok && at.Len() == 0 {
-							good = true
-						}
-					}
-				}
-				if ms, ok := fw.val.(*ssa.MakeSlice); ok {
-					if l, ok := constInt(ms.Len); ok && l == 0 {
-						good = true
-					}
-				}
 				for _, el := range elems {
-					if dataDependsOn(fw.val, el) {
+					if li.body[el.Block()] {
+						mine = append(mine, el)
+					}
+				}
+			}
+			if len(mine) == 0 {
+				continue
+			}
+			n++
+			good := false
+			// an empty list
+			if sl, ok := fw.val.(*ssa.Slice); ok {
+				if al, ok := sl.X.(*ssa.Alloc); ok {
+					if at, ok := al.Type().(*types.Pointer).Elem().Underlying().(*types.Array); ok && at.Len() == 0 {
 						good = true
 					}
 				}
-				r.Check(good, "C16.forwarded-path-is-this-path", fmt.Sprintf("extractOption: forwarded path list #%d", n), fw.in.Pos(), "empty, or the tail of the path of this iteration", "the copy handed to the nested graph carries a path that is not computed from the path being processed (e.g. the copy's own first path with its head removed): for the second and later paths of one option the nested graph receives the tail of the option's FIRST path — DesignateNodeWithPath(<A,n1>,<B,n2>) reaches B/n1 and never B/n2, callbacks fire for the wrong node, and <B>,<A,n1> fails with 'designated an empty path'")
 			}
+			if ms, ok := fw.val.(*ssa.MakeSlice); ok {
+				if l, ok := constInt(ms.Len); ok && l == 0 {
+					good = true
+				}
+			}
+			for _, el := range mine {
+				if dataDependsOn(fw.val, el) {
+					good = true
+				}
+			}
+			r.Check(good, "C16.forwarded-path-is-this-path", fmt.Sprintf("extractOption: forwarded path list #%d", n), fw.in.Pos(), "empty, or the tail of the path of this iteration", "the copy handed to the nested graph carries a path that is not computed from the path being processed (e.g. the copy's own first path with its head removed): for the second and later paths of one option the nested graph receives the tail of the option's FIRST path — DesignateNodeWithPath(<A,n1>,<B,n2>) reaches B/n1 and never B/n2, callbacks fire for the wrong node, and <B>,<A,n1> fails with 'designated an empty path'")
 		}
 		if n < 2 {
 			undecidedf("C16.forwarded-path-is-this-path: %d path-list stores found inside the loop over designated paths (2 expected)", n)
+		}
+	}
+
+	// options handed on through a task record instead of a call: the retriever flows build utils.RetrieveTask values that
+	// ConcurrentRetrieveWithCallback later calls with task.RetrieveOptions — a function that has call options of its own
+	// and builds such a task puts them in
+	r.Rule("C16.task-records-carry-options", "every utils.RetrieveTask built in a function that received retriever call options sets RetrieveOptions from them (the indirect form of C16.opts-forwarded: the wrapped retriever is called from the task record)", 2)
+	{
+		taskT := w.Named("flow/retriever/utils", "RetrieveTask")
+		n := 0
+		for _, fn := range w.RepoFuncs("flow") {
+			var optP *ssa.Parameter
+			for _, p := range fn.Params {
+				if sl, ok := p.Type().Underlying().(*types.Slice); ok {
+					if nm := namedOf(sl.Elem()); nm != nil && nm.Obj().Name() == "Option" && nm.Obj().Pkg() != nil && strings.HasSuffix(nm.Obj().Pkg().Path(), "components/retriever") {
+						optP = p
+					}
+				}
+			}
+			if optP == nil {
+				continue
+			}
+			instrs(fn, func(in ssa.Instruction) {
+				al, ok := in.(*ssa.Alloc)
+				if !ok || namedOf(al.Type()) != taskT {
+					return
+				}
+				n++
+				set := false
+				for _, fw := range fieldWrites(fn) {
+					if fw.owner == taskT && fw.base == ssa.Value(al) && fw.field.Name() == "RetrieveOptions" && derivesFrom(fw.val, optP) {
+						set = true
+					}
+				}
+				r.Check(set, "C16.task-records-carry-options", fmt.Sprintf("%s: retrieve task #%d carries the call's options", w.fname(fn), n), al.Pos(), "RetrieveOptions: opts", "the task record is built without the options this call received: a retriever.WithTopK(…) / compose.WithRetrieverOption(…) delivered to this retriever node — designated or not — reaches the node and stops there, the wrapped retriever is called without it (the sibling router retriever forwards them)")
+			})
+		}
+		if n < 2 {
+			undecidedf("C16.task-records-carry-options: only %d RetrieveTask literals found in option-taking functions", n)
 		}
 	}
 
